@@ -24,6 +24,7 @@ func init() {
 			"X8 every creator of a fork's chunk objects (first run, re-attach) pads the chunk directory names to a width computed from the same expression. " +
 			"X9 the static fork enumeration never stores through the *ForkSourcePart it was handed (shared placeholder). " +
 			"X10 in SplitExp.BindingPath the arm for a value that narrowed to null does not return the un-narrowed Value. " +
+			"X11 getUnknownLength returns only constants, len(..) or reflect Len; X6 (corrected in round 10) the private copy of a shared fork-id part is taken whenever the node has more than one fork. " +
 			"NOT decided: one fork per element/key (run-time counts), liveness (no job skipped).",
 		Assumptions: commonAssumptions,
 	}
@@ -40,6 +41,7 @@ func runC03(c *an.Ctx) {
 	ruleChunkWidth(c, "X8")
 	ruleX9(c)
 	ruleX10(c)
+	ruleX11(c)
 }
 
 // ---------------------------------------------------------------------------
